@@ -24,6 +24,18 @@ func messages() []string {
 		body := pick(i, "plain body\r\n", "* 5 FETCH (BODY[] {3}\r\nabc)\r\nt1 OK FETCH completed\r\n", "{10}\r\n)))(((\"\\\r\n", "line1\r\n.\r\n..\r\n", "8bit \xff\xfe body\r\n", "")
 		out = append(out, h+"\r\n"+body)
 	}
+	// display names of every address field, wholly or partly quoted, with backslashes in front of ordinary characters,
+	// doubled backslashes, escaped and bare quotes, parentheses, 8-bit and control octets
+	names := []string{`"C:\Users\eve"`, `"Mallory \(sales\)"`, `"trailing backslash \\"`, `"a \" b"`, `"tab\there"`, "\"bare\x01control\"", "\"nul\x00inside\"",
+		`half "quoted" name`, `"unterminated`, `back\slash unquoted`, "\"caf\xe9 8bit\"", `"paren ) in ( name"`, `"{5}" `, `"" `, `"\\"`}
+	for i, nm := range names {
+		field := []string{"From", "Sender", "Reply-To", "To", "Cc", "Bcc"}[i%6]
+		h := "From: base@example.org\r\nTo: r@example.com\r\n"
+		if field == "From" || field == "To" {
+			h = map[string]string{"From": "To: r@example.com\r\n", "To": "From: base@example.org\r\n"}[field]
+		}
+		out = append(out, h+field+": "+nm+" <x"+fmt.Sprint(i)+"@example.org>, "+nm+" <y@example.org>\r\nSubject: name "+fmt.Sprint(i)+"\r\n\r\nbody\r\n")
+	}
 	// multiparts
 	out = append(out, "From: a@b\r\nTo: c@d\r\nSubject: mp \"q\"\r\nMIME-Version: 1.0\r\nContent-Type: multipart/mixed; boundary=\"XX\"\r\n\r\n--XX\r\nContent-Type: text/plain; charset=\"utf-8\"; name=\"we\\\"ird (name).txt\"\r\n\r\npart one {5}\r\n--XX\r\nContent-Type: application/octet-stream; name=\"a)b.bin\"\r\nContent-Disposition: attachment; filename=\"a)b.bin\"\r\nContent-Transfer-Encoding: base64\r\n\r\nQUJD\r\n--XX--\r\n")
 	out = append(out, "From: a@b\r\nTo: c@d\r\nSubject: nested\r\nMIME-Version: 1.0\r\nContent-Type: multipart/mixed; boundary=o\r\n\r\n--o\r\nContent-Type: multipart/alternative; boundary=i\r\n\r\n--i\r\nContent-Type: text/plain\r\n\r\nt\r\n--i\r\nContent-Type: text/html\r\n\r\n<p>\"h\"</p>\r\n--i--\r\n--o\r\nContent-Type: text/plain\r\nContent-ID: <id(1)@x>\r\nContent-Description: de\"sc\r\n\r\nlast\r\n--o--\r\n")
